@@ -313,7 +313,7 @@ def _api_level(ctx: Ctx) -> None:
     rows = []
     for i, cfg in enumerate(cfgs):
         dom, forest = names[i % len(names)]
-        cfg.update(dns=True, dc_error=False, domain=dom, forest=forest)
+        cfg.update(dns=True, dc_error=False, domain=dom, forest=forest, upn=(i % 4 == 2))
         row = c17.one_call(ctx, cfg)
         row["id"] = i
         rows.append(row)
